@@ -2,6 +2,7 @@ package main
 
 import (
 	"fmt"
+	"runtime"
 )
 
 type schedParams struct {
@@ -51,7 +52,7 @@ func genSchedSpec(p *schedParams, c *Corpus, run int, cold bool) *RunSpec {
 		n = ro.Range(2, 3)
 	}
 	spec := &RunSpec{Property: p.prop, Engine: "sched", VerifSeed: p.verifSeed, Run: run, RunSeed: fmt.Sprintf("%#x", seed), Cfg: cfg,
-		Fresh: cold || ro.Chance(7, 10), Cold: cold, Deep: deepBuild}
+		Fresh: cold || ro.Chance(7, 10), Cold: cold, Deep: deepBuild, GoMaxProcs: runtime.GOMAXPROCS(0)}
 	// documents
 	var docs [][]byte
 	herd := rd.Chance(1, 2)
@@ -69,9 +70,19 @@ func genSchedSpec(p *schedParams, c *Corpus, run int, cold bool) *RunSpec {
 		// the process's very first conversions: whatever is initialised lazily at package
 		// level (today the entity table; a change could add more) is first touched here, so
 		// the documents are chosen to reach as many such corners as possible
-		fam := pick(rd, []string{"entity", "entity", "unilabel", "any", "mix"})
+		fam := pick(rd, []string{"entity", "unilabel", "any", "mix", "composite", "composite", "composite"})
+		if fam == "composite" && !c15 {
+			// everything switched on in two thirds of these runs
+			if rd.Chance(2, 3) {
+				spec.Cfg = Config{GFM: true, DefList: true, Footnote: true, Typographer: true, CJK: pick(rd, []string{"", "default", "css3"}), AutoID: true, Attribute: rd.Chance(1, 2),
+					TableAlign: pick(rd, []string{"", "style", "attribute"}), FootnoteOpt: pick(rd, []string{"", "prefix", "prefixfn", "titles"}), LinkifyOpt: pick(rd, []string{"", "protocols", "regexp"}),
+					Unsafe: rd.Chance(1, 3), XHTML: rd.Chance(1, 3), HardWraps: rd.Chance(1, 4)}
+			}
+		}
 		for i := 0; i < n; i++ {
 			switch {
+			case fam == "composite":
+				docs = append(docs, genComposite(rd, rd.Range(3, 7)))
 			case fam == "entity" && rd.Chance(2, 3) && len(c.Entity) > 0:
 				docs = append(docs, pick(rd, c.Entity))
 			case fam == "entity":
@@ -85,7 +96,11 @@ func genSchedSpec(p *schedParams, c *Corpus, run int, cold bool) *RunSpec {
 			}
 		}
 	case herd:
-		docs = genHerd(rd, c, n+rd.Intn(3))
+		var fam string
+		docs, fam = genHerd(rd, c, n+rd.Intn(3))
+		if rd.Chance(3, 4) {
+			spec.Cfg = biasConfig(rd, spec.Cfg, fam)
+		}
 	default:
 		for i := 0; i < n+rd.Intn(3); i++ {
 			if p.tier == "thorough" && rd.Chance(1, 40) {
